@@ -300,7 +300,10 @@ func c16Run(c *core.Ctx) {
 	{
 		targets := []int{4096, 8192}
 		if thorough {
-			targets = []int{512, 1024, 2048, 4096, 8192, 16384, 32768, 65536}
+			// not beyond 16 384: with the library logger at trace level the parser formats the whole unit list once per
+			// unit (quadratic in the number of units), which takes tens of seconds for 20 000 units and says nothing
+			// about this property
+			targets = []int{512, 1024, 2048, 4096, 8192, 16384}
 		}
 		u := 500
 		for _, T := range targets {
@@ -335,7 +338,7 @@ func c16Run(c *core.Ctx) {
 			}
 			for _, l := range []int{0, 1, 5} {
 				u++
-				if !c.Mine(u) {
+				if !c.Mine(u) || T > 8192 {
 					continue
 				}
 				var us []c16Unit
